@@ -265,7 +265,7 @@ fn gen(rng: &mut Rng, i: u64) -> String {
 				// CodeView NB10
 				ty = 2;
 				data.extend(b"NB10");
-				data.extend(w32(0));
+				data.extend(w32(if rng.chance(1, 2) { 0 } else { rng.next() as u32 })); // Offset (observed through image.Offset)
 				data.extend(w32(rng.next() as u32));
 				data.extend(w32(rng.below(100) as u32));
 				let n = match rng.below(5) { 0 => 0, 1 => 1, _ => rng.range(2, 40) };
@@ -647,7 +647,7 @@ macro_rules! run_queries {
 					Ok(s) => {
 						let im = s.image() as *const _ as *const u8;
 						let d = s.certificate_data();
-						format!("ok:{}:{}:{}", offof(im), s.certificate_type(), reg(d.as_ptr(), d.len()))
+						format!("ok:{}:{}:{}:{}:{}", offof(im), s.certificate_type(), reg(d.as_ptr(), d.len()), s.image().dwLength, s.image().wRevision)
 					},
 					Err(e) => format!("e:{:?}", e),
 				},
@@ -676,7 +676,7 @@ macro_rules! run_queries {
 										CodeView::Cv20 { image, pdb_file_name } => {
 											assert!(pdb_file_name.c_str().as_ptr() == name.c_str().as_ptr());
 											assert!(image as *const _ as usize % 4 == 0, "harness: misaligned reference returned");
-											format!("cv20:{}:{}:{}:{}:{}:{}", offof(image as *const _ as *const u8), fmt, image.TimeDateStamp, age, offof(name.c_str().as_ptr()), name.c_str().len())
+											format!("cv20:{}:{}:{}:{}:{}:{}:{}", offof(image as *const _ as *const u8), fmt, image.TimeDateStamp, age, offof(name.c_str().as_ptr()), name.c_str().len(), image.Offset)
 										},
 										CodeView::Cv70 { image, pdb_file_name } => {
 											assert!(pdb_file_name.c_str().as_ptr() == name.c_str().as_ptr());
